@@ -79,9 +79,12 @@ func (txn *Txn) rangeWrite(fn func(commitID uint64, chunk commit.Chunk, fill bit
 	lock := txn.owner.slock
 	txn.dirty.Range(func(x uint32) {
 		chunk := commit.Chunk(x)
-		commitID := commit.Next()
 		verifYield("commit:pre-latch", uint32(chunk))
 		lock.Lock(uint(chunk))
+
+		// The commit ID must be drawn while holding the latch, so that for a chunk
+		// the IDs increase in the order in which the commits are applied.
+		commitID := commit.Next()
 
 		// Compute the fill and set the last commit ID
 		txn.owner.lock.RLock()
